@@ -160,7 +160,8 @@ Graph graphFor(long graphSeed, long maxFiles, long avoid, long heavy = 0)
     GraphParams gp;
     gp.maxFiles = maxFiles;
     gp.avoidIndirectUnits = avoid != 0 && heavy == 0;
-    gp.unitsHeavy = heavy != 0;
+    gp.unitsHeavy = heavy == 1;
+    gp.encapsulationHeavy = heavy == 2;
     return generateGraph(rng, gp);
 }
 
@@ -186,7 +187,7 @@ Plan generate(Rng &rng, const Opts &opts, uint64_t runIndex)
             avoid = 0;
             p.cfg["enum"] = 1;
         }
-        long heavy = graphSeed >= 0 ? opts.f("uheavy", graphSeed % 4 == 0 ? 1 : 0) : 0;
+        long heavy = graphSeed >= 0 ? opts.f("uheavy", graphSeed % 4 == 0 ? 1 : graphSeed % 4 == 1 ? 2 : 0) : 0;
         p.cfg["graphseed"] = graphSeed;
         p.cfg["avoid"] = avoid;
         p.cfg["uheavy"] = heavy;
@@ -249,7 +250,7 @@ Plan generate(Rng &rng, const Opts &opts, uint64_t runIndex)
     // seeded multi-fault runs
     long graphSeed = long(rng.below(1u << 30));
     long avoid = opts.f("avoid", long(rng.below(2)));
-    long heavy = opts.f("uheavy", graphSeed % 4 == 0 ? 1 : 0);
+    long heavy = opts.f("uheavy", graphSeed % 4 == 0 ? 1 : graphSeed % 4 == 1 ? 2 : 0);
     p.cfg["graphseed"] = graphSeed;
     p.cfg["avoid"] = avoid;
     p.cfg["uheavy"] = heavy;
@@ -764,6 +765,62 @@ std::string faultTags(const World &w, const std::set<std::string> &paths, const 
         s += (s.empty() ? "" : ",") + t;
     }
     return s;
+}
+
+// No file of this world - in any version it ever had, on disk or in a library - imports, directly or through others, from
+// itself, and none has a loop of ordinary units: no dependency cycle of any kind can exist, whatever was served when.
+bool worldIsAcyclic(const iw::Vfs &vfs, const iw::FileSpec &clientRoot)
+{
+    std::map<std::string, std::set<std::string>> adj;
+    auto edges = [&](const std::string &node, const iw::FileSpec &f) {
+        for (auto &u : f.units) {
+            if (u.imported) {
+                adj[node].insert(iw::normalisePath(f.dir + u.href));
+            }
+        }
+        for (auto &c : f.comps) {
+            if (c.imported) {
+                adj[node].insert(iw::normalisePath(f.dir + c.href));
+            }
+        }
+    };
+    if (clientRoot.hasLocalUnitsCycle) {
+        return false;
+    }
+    edges("<client model>", clientRoot);
+    for (auto &v : vfs.versions) {
+        if (v.spec.hasLocalUnitsCycle) {
+            return false;
+        }
+        edges(iw::normalisePath(v.spec.path), v.spec);
+    }
+    std::map<std::string, int> colour; // 1: on the path, 2: finished
+    std::function<bool(const std::string &)> visit = [&](const std::string &n) {
+        int &c = colour[n];
+        if (c == 1) {
+            return false;
+        }
+        if (c == 2) {
+            return true;
+        }
+        c = 1;
+        auto it = adj.find(n);
+        if (it != adj.end()) {
+            for (auto &t : it->second) {
+                if (!visit(t)) {
+                    return false;
+                }
+            }
+        }
+        colour[n] = 2;
+        return true;
+    };
+    for (auto &kv : adj) {
+        if (!visit(kv.first)) {
+            return false;
+        }
+    }
+    return true;
 }
 
 bool issueNamesAnImport(const IssuePtr &is)
@@ -1426,6 +1483,26 @@ void execute(const Plan &plan, Ctx &ctx)
                     return;
                 }
                 ctx.count(errors > 0 ? "resolve_false_with_error" : "resolve_false_without_error_level_issue");
+                // a failure that comes from a file that cannot be had leaves an import without its model: the model still
+                // has unresolved imports, wherever in the closure the file is needed
+                if (exact && combos == 1 && expected.size() == 1 && expected.count(Verdict::UNSAT) != 0 && !unresolved
+                    && (why.compare(0, 12, "missing file") == 0 || why.compare(0, 11, "cannot open") == 0 || why.compare(0, 15, "not well-formed") == 0)) {
+                    ctx.violate("C07", "unresolvable-but-no-unresolved-imports", tags, "resolveImports returned false and a file of the closure cannot be had (" + why + "), but Model::hasUnresolvedImports() is false");
+                    return;
+                }
+                // what is reported is what is wrong: a cycle is not reported where no file, in any version it ever had,
+                // leads back to itself (an import that fails for another reason must not leave a trail that makes the next
+                // one look like a loop)
+                for (size_t i = 0; i < imp.importer->issueCount(); ++i) {
+                    if (imp.importer->issue(i)->description().find("Cyclic dependencies") != std::string::npos) {
+                        if (worldIsAcyclic(w.vfs, c.rootSpec)) {
+                            ctx.violate("C07", "cycle-reported-in-acyclic-world", tags, "resolveImports reports a dependency cycle although no file of this world ever imported, directly or indirectly, from itself: " + imp.importer->issue(i)->description().substr(0, 300));
+                            return;
+                        }
+                        ctx.count("resolve_cycle_reported_in_a_world_with_a_cycle");
+                        break;
+                    }
+                }
             } else {
                 ctx.count("resolve_true");
             }
